@@ -128,7 +128,7 @@ var profiles = map[string]Profile{
 		Tpls:  []int{tplWorld, tplLit, tplVar, tplSetAccountMeta, tplOverdraftUnbounded},
 		IKPct: 40, RefPct: 20, DryPct: 0, TSPct: 60, BigPct: 40, CrashPct: 70, WriteFailPct: 25, ReadFailPct: 10, ClockPct: 60, IKPool: 3, RefPool: 3, TargetPool: 4, CancelBlockedPct: 20, CancelPct: 6, FundMax: 30, AmountMax: 5},
 	// C16
-	"events": {Name: "events", BigIDs: true, CrashPct: 45, MaxClients: 5, MaxOps: 3, MaxGens: 3, MaxLedgers: 2, WKind: [5]int{5, 3, 5, 3, 3}, ClockPct: 25,
+	"events": {Name: "events", BigIDs: true, CrashPct: 45, WriteFailPct: 20, ReadFailPct: 10, MaxClients: 5, MaxOps: 3, MaxGens: 3, MaxLedgers: 2, WKind: [5]int{5, 3, 5, 3, 3}, ClockPct: 25,
 		Tpls:  []int{tplWorld, tplLit, tplVar, tplSetAccountMeta, tplAll},
 		IKPct: 25, RefPct: 5, DryPct: 20, CancelPct: 8, CancelBlockedPct: 25, IKPool: 2, RefPool: 2, TargetPool: 3, FundMax: 20, AmountMax: 6},
 	// C14 invariant form under concurrency
@@ -423,8 +423,13 @@ func GenInput(t *rapid.T, p *Profile) *Input {
 	}
 	sortFaults(in.Faults)
 	if pct(t, p.WriteFailPct, "hasWriteFail") {
-		in.SFaults = append(in.SFaults, StoreFail{Ledger: rapid.IntRange(0, cfg.Ledgers-1).Draw(t, "wfLedger"), Method: "InsertLogs",
-			Nth: rapid.IntRange(1, 10).Draw(t, "wfNth"), Mode: rapid.IntRange(1, 2).Draw(t, "wfMode")})
+		sf := StoreFail{Ledger: rapid.IntRange(0, cfg.Ledgers-1).Draw(t, "wfLedger"), Method: "InsertLogs",
+			Nth: rapid.IntRange(1, 10).Draw(t, "wfNth"), Mode: rapid.IntRange(1, 2).Draw(t, "wfMode")}
+		if pct(t, 25, "wfOutage") {
+			// an outage rather than a single error: whatever retries, retries into it
+			sf.Len, sf.Mode = rapid.IntRange(2, 14).Draw(t, "wfLen"), 1
+		}
+		in.SFaults = append(in.SFaults, sf)
 	}
 	if pct(t, p.ReadFailPct, "hasReadFail") {
 		n := rapid.IntRange(1, 2).Draw(t, "nReadFail")
